@@ -370,7 +370,117 @@ theorem C19_gain_invariant (xs : List Input) (hpw : ∀ x ∈ xs, Bd 1 x.pow) :
     · exact ih (fun y hy => hpw y (List.mem_cons_of_mem _ hy)) _
         (step_gain hs (hpw x (List.mem_cons_self ..))) τ hτ
 
-/-! ## 7. Constants of `Pll.Do`, regenerated from the source on every run -/
+/-- `adjust_sane`, frequency: the integrator grows by at most `2²⁵` per update
+    (`|p·b| ≤ |offset|·0.33·(0.33/60) ≤ 9 223 372 038 · 0.33 · 0.0055 < 2²⁵`), so in every
+    history of fewer than 2⁵³ updates (int64 offsets, `math.Pow` results in [0,1]) every
+    frequency handed to `Adjust` is a finite double, of magnitude at most `2²⁵ ·` (number of
+    updates). The integrator has not overflowed — and cannot within 2⁵³ updates. -/
+theorem C19_adjust_frequency_finite (xs : List Input) (hpw : ∀ x ∈ xs, Bd 1 x.pow)
+    (hoff : ∀ x ∈ xs, minI64 ≤ x.offset ∧ x.offset ≤ maxI64) (hlen : xs.length < 2 ^ 53) :
+    ∀ τ ∈ trace init xs, ∀ s' acts o d f, τ.2.2 = .ok s' acts → Action.adjust o d f ∈ acts →
+      isFinite f = true ∧ (toRat f).abs ≤ (xs.length : Rat) * 33554432 := by
+  intro τ hτ s' acts o d f hok ha
+  have hi0 : IntegBd 0 init := ⟨rfl, by decide +kernel⟩
+  have h := trace_integ (n := 0) gain_init hi0 hpw hoff (by omega) τ hτ
+  rw [hok] at h
+  simp only [Outcome.next, Nat.zero_add] at h
+  have hst := trace_step hτ
+  rw [hok] at hst
+  have hf := (step_adjust hst.symm ha).2.2.2.2.1
+  rw [hf]; exact h
+
+/-- One update of the integrator, for any state: `|l.i'| ≤ |l.i| bound + 2²⁵`. -/
+theorem C19_integrator_growth {s : State} {e : Nat} {now off : Int} {w pw : F64} {n : Nat}
+    (hg : Gain s) (hpw : Bd 1 pw) (hoff : minI64 ≤ off ∧ off ≤ maxI64) (hn : n + 1 < 2 ^ 53)
+    (hi : isFinite s.i = true ∧ (toRat s.i).abs ≤ (n : Rat) * 33554432) :
+    isFinite ((step s e now off w pw).next s).i = true ∧
+      (toRat ((step s e now off w pw).next s).i).abs ≤ ((n + 1 : Nat) : Rat) * 33554432 :=
+  step_integ hg hpw hoff hn hi
+
+/-! ## 7. The property over histories, in one statement -/
+
+/-- For every history of updates at non-decreasing clock readings — consecutive readings at most
+    7 999 999 999 s apart, int64 offsets, arbitrary weights (NaN and infinities included),
+    arbitrary clock epochs changing at any point, `math.Pow` results in [0,1], fewer than 2⁵³
+    updates — every update completes without panic, and
+    * a `Step` is made only in mode 1 of the current epoch, more than 2 s after the epoch's first
+      update, with weight > 3 and |offset| > 1 ms, by the measured offset (`MinInt64 + 1` for
+      `MinInt64`);
+    * an `Adjust` is made only in mode 3, with a duration of at least one second, a finite
+      frequency, and a slew of at most 500 000 ns per whole second `D = ⌈dt⌉`, where
+      `D ≤ ⌊gap/10⁹⌋ + 1` for the gap to the previous reading. -/
+theorem C19_history (xs : List Input) (hmono : NonDecreasing xs)
+    (hgap : Consec (fun x y => y.now - x.now ≤ 7999999999000000000) xs)
+    (hpw : ∀ x ∈ xs, Bd 1 x.pow) (hoff : ∀ x ∈ xs, minI64 ≤ x.offset ∧ x.offset ≤ maxI64)
+    (hlen : xs.length < 2 ^ 53) :
+    ∀ τ ∈ trace init xs, ∃ s' acts, τ.2.2 = .ok s' acts ∧
+      (∀ x, Action.step x ∈ acts →
+        τ.1.mode = 1 ∧ τ.2.1.clkEpoch = τ.1.epoch ∧ timeSub τ.2.1.now τ.1.t0 > 2000000000 ∧
+        gt τ.2.1.weight (ofInt 3) = true ∧ (τ.2.1.offset > 1000000 ∨ τ.2.1.offset < -1000000) ∧
+        x = (if τ.2.1.offset = minI64 then minI64 + 1 else τ.2.1.offset)) ∧
+      (∀ o d f, Action.adjust o d f ∈ acts →
+        τ.1.mode = 3 ∧ τ.2.1.clkEpoch = τ.1.epoch ∧ 1000000000 ≤ d ∧ isFinite f = true ∧
+        ∃ D : Int, 1 ≤ D ∧ D ≤ (τ.2.1.now - τ.1.t) / 1000000000 + 1 ∧
+          -(500000 * D) ≤ o ∧ o ≤ 500000 * D ∧ d = toDuration (.fin (D : Rat))) := by
+  intro τ hτ
+  have hin : τ.2.1 ∈ xs := by
+    clear hmono hgap hpw hoff hlen
+    generalize init = s at hτ
+    induction xs generalizing s with
+    | nil => simp [trace] at hτ
+    | cons x xs ih =>
+      simp only [trace, List.mem_cons] at hτ
+      rcases hτ with rfl | h
+      · exact List.mem_cons_self ..
+      · exact List.mem_cons_of_mem _ (ih _ h)
+  obtain ⟨_, ⟨s', acts, hok⟩, hlink⟩ :=
+    trace_linked (R := fun x y => y.now - x.now ≤ 7999999999000000000) inv_init none
+      (fun _ => rfl) (by intro p hp; cases hp) (by intro x p _ hp; cases hp) hmono.inEpoch hgap τ hτ
+  have hst := (trace_step hτ).symm
+  rw [hok] at hst
+  simp only [stepIn] at hst
+  refine ⟨s', acts, hok, ?_, ?_⟩
+  · intro x hx
+    have h := C19_step_only_when (hoff _ hin) hst hx
+    exact ⟨h.2.1, h.1, h.2.2.1, h.2.2.2.1, h.2.2.2.2.1, h.2.2.2.2.2.1⟩
+  · intro o d f ha
+    have hA := C19_adjust_only_tracking hst ha
+    have hg := C19_gain_invariant xs hpw τ hτ
+    have hf := C19_adjust_frequency_finite xs hpw hoff hlen τ hτ s' acts o d f hok ha
+    rcases hlink with h0 | ⟨p, hR, ht, hle⟩
+    · rw [hA.2.1] at h0; exact absurd h0 (by decide)
+    · have hmono' : τ.1.t ≤ τ.2.1.now := by rw [ht]; exact hle hA.1
+      have hgap' : τ.2.1.now - τ.1.t ≤ 7999999999000000000 := by rw [ht]; exact hR
+      obtain ⟨D, _, hD1, hD2, hlo, hhi, hd⟩ :=
+        C19_slew_bound hg (hpw _ hin) (hoff _ hin) hmono' hgap' hst ha
+      obtain ⟨_, _, _, _, _, hdpos, _⟩ :=
+        C19_adjust_duration_pos hmono' (by omega) hst ha
+      exact ⟨hA.2.1, hA.1, hdpos, hf.1, D, hD1, hD2, hlo, hhi, hd⟩
+
+/-- A history meeting every hypothesis of `C19_history` in which all of it happens: start-up,
+    a step by the measured 5 ms, tracking, a clamped slew (1 s offset after 16 s: 8 ms over
+    16 s), and a restart on a new epoch. -/
+def demo : List Input :=
+  [⟨7, 0, 5000000, ofInt 1000, ofInt 1⟩, ⟨7, 2000000001, 5000000, ofInt 1000, ofInt 1⟩,
+   ⟨7, 9000000000, 100, ofInt 1000, ofInt 1⟩, ⟨7, 25000000000, 1000000000, ofInt 1000, ofInt 1⟩,
+   ⟨8, 26000000000, 1000000000, ofInt 1000, ofInt 1⟩]
+
+example : NonDecreasing demo ∧ Consec (fun x y => y.now - x.now ≤ 7999999999000000000) demo
+    ∧ (∀ x ∈ demo, Bd 1 x.pow) ∧ (∀ x ∈ demo, minI64 ≤ x.offset ∧ x.offset ≤ maxI64) := by
+  refine ⟨by simp [demo, NonDecreasing], by simp [demo, Consec], ?_, ?_⟩
+  · intro x hx; simp [demo] at hx
+    rcases hx with rfl | rfl | rfl | rfl | rfl <;> exact ⟨by decide +kernel, by decide +kernel, by decide +kernel⟩
+  · intro x hx; simp [demo] at hx
+    rcases hx with rfl | rfl | rfl | rfl | rfl <;> decide
+
+example : (run init demo).map (fun o => match o with
+      | .ok s acts => (s.mode, acts.map (fun (a : Action) => match a with
+          | .step x => [x] | .adjust o d _ => [o, d]))
+      | .panic _ => (99, []))
+    = [(1, []), (2, [[5000000]]), (3, []), (3, [[8000000, 16000000000]]), (1, [])] := by
+  decide +kernel
+
+/-! ## 8. Constants of `Pll.Do`, regenerated from the source on every run -/
 
 open ScionTime.Gen.Adjustments in
 theorem C19_pin_thresholds :
